@@ -414,6 +414,10 @@ func grp05Case(w *vlog.W, a *wargs, id int, rng *rand.Rand, opts harness.Options
 					}
 					if !isFailState(st) {
 						viol("group:child-not-failed:"+model.StName[st], fmt.Sprintf("after block %d (group failed in block %d) child %s still has status %s", h, g.failedAt, c.id(g.from), model.StName[st]))
+						if g.failEv[1] == 1<<30 {
+							// the group failed by expiry: "moved to BEGIN_ROLLBACK as a whole" is C06's clause too
+							viol("timeout:group-child-not-rolled-back:"+model.StName[st], fmt.Sprintf("after block %d (group timed out in block %d) child %s still has status %s", h, g.failedAt, c.id(g.from), model.StName[st]))
+						}
 					}
 				}
 			}
